@@ -16,12 +16,14 @@ package s3event
 
 import (
 	"encoding/json"
+	"encoding/xml"
 	"fmt"
 	"strings"
 	"time"
 
 	"github.com/gofiber/fiber/v2"
 	"github.com/versity/versitygw/auth"
+	"github.com/versity/versitygw/s3response"
 )
 
 type S3EventSender interface {
@@ -35,6 +37,41 @@ type EventMeta struct {
 	ObjectSize  int64
 	ObjectETag  *string
 	VersionId   *string
+	// DeletedObjects, when not nil, lists the objects a DeleteObjects
+	// request actually removed (the request may have failed for others)
+	DeletedObjects []EventDeletedObject
+}
+
+type EventDeletedObject struct {
+	Key       string
+	VersionId *string
+}
+
+// deleteObjectsEvents builds one event per object removed by a
+// DeleteObjects request: the objects the backend reported as deleted when
+// the caller passed them, else the objects named in the request body.
+func deleteObjectsEvents(ctx *fiber.Ctx, meta EventMeta, configId ConfigurationId) ([]EventSchema, error) {
+	objs := meta.DeletedObjects
+	if objs == nil {
+		var dObj s3response.DeleteObjects
+		if err := xml.Unmarshal(ctx.Body(), &dObj); err != nil {
+			return nil, err
+		}
+		for _, obj := range dObj.Objects {
+			if obj.Key == nil {
+				continue
+			}
+			objs = append(objs, EventDeletedObject{Key: *obj.Key, VersionId: obj.VersionId})
+		}
+	}
+	events := make([]EventSchema, 0, len(objs))
+	for _, obj := range objs {
+		schema := createEventSchema(ctx, meta, configId)
+		schema.Records[0].S3.Object.Key = obj.Key
+		schema.Records[0].S3.Object.VersionId = obj.VersionId
+		events = append(events, schema)
+	}
+	return events, nil
 }
 
 type EventSchema struct {
